@@ -21,4 +21,4 @@ Lemma Rltb_false a b : Rltb a b = false <-> b <= a.
 Proof. unfold Rltb; destruct (Rlt_dec a b); split; intros; try easy; lra. Qed.
 Definition Rtrunc (x : R) : Z := if Rle_dec 0 x then Int_part x else (- Int_part (- x))%Z.
 #[export] Instance NumIR : NumI R := {| ntrunc := Rtrunc |}.
-#[export] Instance NumXR : NumX R := {| nexp := exp; nln := ln |}.
+#[export] Instance NumXR : NumX R := {| nexp := exp; nln := ln; nbinom := fun a i => C (Z.to_nat a) (Z.to_nat i) |}.
